@@ -21,11 +21,20 @@ theorem activeBit_isSome (u : List Nat) (b : Nat) (h : b < 32 * u.length) : ∃ 
   rw [List.getElem?_eq_getElem this]
   exact ⟨_, rfl⟩
 
+theorem slice_slice_clamp (d : Bytes) (a n b m : Nat) : slice (slice d a n) b m = slice d (a + b) (min m (n - b)) := by
+  apply List.ext_getElem?; intro i
+  simp only [slice_getElem?]
+  by_cases h1 : i < m
+  · by_cases h2 : b + i < n
+    · rw [if_pos h1, if_pos h2, if_pos (by omega), Nat.add_assoc]
+    · rw [if_pos h1, if_neg h2, if_neg (by omega)]
+  · rw [if_neg h1, if_neg (by omega)]
+
 theorem dpBlock_ok (P : Bytes) (dp : Dp) (b : Nat) (h : b < 32 * dp.lv2bits.length) :
     dpBlock P dp b = .ok (dpRawBlock P dp b) := by
   obtain ⟨v, hv⟩ := activeBit_isSome dp.lv2bits b h
   unfold dpBlock dpRawBlock
-  rw [hv]
+  rw [hv, slice_slice_clamp]
   cases v <;> simp
 
 theorem Level.bs_pos (l : Level) : 0 < l.bs := Nat.two_pow_pos _
